@@ -12,7 +12,8 @@ SPEC = {
                   "(C28_delete_total) and returns true exactly when no other tunnel is in the list of any of its addresses (C28_final_iff); a tunnel "
                   "that stopped being live is never live or referenced again (C28_no_resurrect) and promoting a non-live tunnel is a no-op "
                   "(C28_promote_removed_noop). The executable predicate evaluated on the implementation's map dumps is proved equivalent to WF "
-                  "(C28_wf_exec).",
+                  "(C28_wf_exec). "
+                  "System level (component sysmon_C28): the canonical dumps of the main hostmap, relay indexes and pending maps of four real nodes built by nebula.Main, taken after every driver call of seeded event histories, are evaluated in Coq with the same executable predicates (wfb, unreachableb for every tunnel that stopped being live).",
     "level_note": "Trusted: Coq kernel; the overlay shim (drives the real StartHandshake, allocateIndex, generateIndex, CheckAndComplete, Complete, "
                   "handleOutbound timeout, DeleteHostInfo, MakePrimary, AddRelay and dumps every map) and the harness; the model<->Go link is "
                   "differential testing over random histories and is as strong as its generator. The model holds the code as repaired by fix F16 "
@@ -21,7 +22,7 @@ SPEC = {
     "gens": ["gen_hostmap"],
     "props": ["props/C28.v"],
     "corr": ["corr/HostMap_corr.v"],
-    "comps": [{"comp": "hostmap", "n_quick": 300, "n_thorough": 6000}],
+    "comps": [{"comp": "hostmap", "n_quick": 300, "n_thorough": 6000}, {"comp": "sysmon_C28", "e2e": True, "n_quick": 12, "n_thorough": 150}],
     "trusted": ["model/HostMap.v is a hand-written mirror of hostmap.go (unlockedAddHostInfo, unlockedInnerAddHostInfo, unlockedDeleteHostInfo, "
                 "unlockedSetHostsForAddr, unlockedMakePrimary), relay_manager.go AddRelay and handshake_manager.go (StartHandshake, allocateIndex, "
                 "generateIndex, CheckAndComplete, Complete, unlockedDeleteHostInfo), tied by the correspondence",
